@@ -186,7 +186,18 @@ def observe_C11(L, replay):
     return _safe(lambda: run_transform_op(L, schema, replay))
 
 
-OBSERVERS = {"C03": observe_C03, "C04": observe_C04, "C11": observe_C11, "C12": observe_C12, "C17": observe_C17, "C18": observe_C18}
+def observe_C01(L, replay):
+    schema = schema_for(L, replay)
+    doc = L.Node.from_json(schema, replay["doc"])
+    step = L.Step.from_json(schema, replay["step"])
+
+    def go():
+        r = step.apply(doc)
+        return {"failed": r.failed} if r.doc is None else {"doc": r.doc.to_json()}
+    return _safe(go)
+
+
+OBSERVERS = {"C01": observe_C01, "C03": observe_C03, "C04": observe_C04, "C11": observe_C11, "C12": observe_C12, "C17": observe_C17, "C18": observe_C18}
 
 
 def same_as_reference(prop, replay):
